@@ -48,9 +48,11 @@ claim(
     "closed witness that the signature is real; stored content is format independent (C09 `decode_encode`); every candidate iteration "
     "graph denotes the assignment (`toIterationGraphs_denote_source`). The lowering pass is ported (exact IR correspondence each run) "
     "and proved correct on the machine piecewise: the terminal block for both output kinds (`toIr_sound`, `terminal_append_sound`, "
-    "`terminal_bucket_sound`, exact over Rat), and END TO END for dense element-wise vector kernels (`dense1_kernel_correct`, "
-    "`dense1_kernel_exact`: the generated evaluate function returns 0 and leaves exactly `value e` at every coordinate, all sizes, all "
-    "inputs). For all other problems the IR the compiler actually emits is executed on the Lean IR machine and on the real LLVM back end "
+    "`terminal_bucket_sound`, exact over Rat), and END TO END for three problem classes: dense element-wise vector kernels "
+    "(`evaluate_correct_dense1`: from the source assignment through desugar, best_algorithm and generate_ir to the final machine state, "
+    "output cells = `denote a` for all sizes and inputs), sparse vector copy/scale (`sparse1_kernel_correct`, any initial capacity) and "
+    "dense contractions a(i) = sum_j e (`dense2_kernel_correct`, `dense2_matvec_kernel_denote`); each run counts the enumerated problems that "
+    "are instances of these classes. For all other problems the IR the compiler actually emits is executed on the Lean IR machine and on the real LLVM back end "
     "for enumerated problems x formats x inputs and compared with the specification, decoding raw arrays.",
     "Lean 4 theorems on hand-written models of spec+desugar; emitted kernels executed on the Lean IR machine and LLVM vs the spec",
     "DESIGN.md section 6 C01",
@@ -60,7 +62,9 @@ claim(
     "C07",
     "Full proof at the model level: `peephole_stmt_sound`/`peephole_expr_sound` (every IR program, state and fuel: the optimised "
     "program yields the same final state and a numerically equal return value with no more iterations/steps, or stops with an int32 "
-    "overflow - finding F8) and `peephole_stmt_sound_stable` (no overflow alternative on the decidable retyping-free fragment). The "
+    "overflow - finding F8), `peephole_stmt_sound_stable` (no overflow alternative on the decidable retyping-free fragment) and "
+    "`peephole_func_sound_typed` (exactly the same state and return value on the TYPED stable fragment, which contains every kernel "
+    "function emitted in a run - evaluated per kernel). The "
     "Lean port of the optimiser is compared tree-for-tree with tensora.ir.peephole on exhaustive depth<=1 typed trees, sampled deeper "
     "trees, statement trees and every generated kernel; the Python-optimised programs are additionally executed against the "
     "originals on the Lean machine over small environments.",
@@ -88,7 +92,9 @@ claim(
     "PARTIAL. Theorems on the ported exhaust/context algebra (exact correspondence with the code each run): the written flag is "
     "raised only at terminals whose exhausted expression is not the literal 0, and then the expression has structural support "
     "(`exhaust_nonzero_support`), with the exact converse characterisation (`exhaustAll_eq_zero_iff`); exhausting absent tensors "
-    "preserves the value. Kernel outputs (evaluate and assemble, machine and real LLVM) are checked against the structural-support "
+    "preserves the value; on the machine: the written-flag branch the pass emits appends a coordinate iff the inner code raised the flag "
+    "(`flag_branch_sound`), for one compressed output level iff the exhausted expression has structural support (`c03_one_level`), and the whole "
+    "sparse copy kernel stores exactly its input's coordinates (`sparse1_kernel_correct`). Kernel outputs (evaluate and assemble, machine and real LLVM) are checked against the structural-support "
     "oracle level prefix by level prefix.",
     "Lean 4 theorems on the ported exhaust algebra + support oracle on machine-executed and real kernel outputs",
     "DESIGN.md section 6 C03", MACHINE,
